@@ -249,4 +249,8 @@ pub struct ReplayFile {
     pub original_op_count: usize,
     /// extra execution mode (e.g. "control" comparison, "twin" universes)
     pub mode: String,
+    /// which simulator build found it: "main" or "plain" (the second build, snow as a user's
+    /// release build compiles it); a replay is re-executed by the same build
+    #[serde(default)]
+    pub build: String,
 }
